@@ -643,6 +643,34 @@ func runC20(c *Ctx) {
 			c.c20Oracle("scalemix", p)
 		}
 	}
+	// LARGE clouds (more than 1024 points: more than 2048 live triangles): vertices, indices and winding in full, the
+	// circumcircle and overlap judges on a sample of the triangles (each sampled triangle against ALL points / ALL triangles)
+	bigs := []int{1100 + c.Rng.Intn(400)}
+	if c.Tier == "thorough" {
+		bigs = append(bigs, 1900+c.Rng.Intn(300), 2800+c.Rng.Intn(300))
+	}
+	for bi, bn := range bigs {
+		var bp c20pts
+		if bi%2 == 0 {
+			bp = c.c20Uniform(bn, 10, 10)
+		} else {
+			bp = c20Map(c.c20Clustered(bn), 10, -300, 700)
+		}
+		tris, pos, after, pan := c20Run2(bp)
+		if pan {
+			c.Emit("c20.holds.indices", "large "+c20PtsStr(bp)+" 0", "panic")
+			continue
+		}
+		pts := c20PtsStr(bp)
+		ts := c20TrisStr(tris)
+		c.Emit("c20.holds.input_unchanged", "large "+pts+" "+c20PtsStr(after), "true")
+		c.Emit("c20.holds.vertices", "large "+pts+" "+fmt.Sprint(len(pos)/3)+" "+Fs(pos...), "true")
+		c.Emit("c20.holds.indices", "large "+fmt.Sprint(len(bp))+" "+ts, "true")
+		c.Emit("c20.holds.winding", "large "+pts+" "+ts, "true")
+		c.Emit("c20.holds.delaunay_sampled", "large "+pts+" "+ts, "true")
+		c.Emit("c20.holds.no_overlap_sampled", "large "+pts+" "+ts, "true")
+		c.Note(fmt.Sprintf("large.n=%d.triangles=%d", len(bp), len(tris)))
+	}
 	rounds := 25
 	if c.Tier == "thorough" {
 		rounds = 200
